@@ -109,6 +109,16 @@ func runsFor(prop, tier string) []run {
 			{"rf1-from-initial", ini(1, 2), pick(6, 8), minutes(pickf(0.3, 2))},
 			{"rf4-from-initial", ini(4, 4), pick(6, 8), minutes(pickf(0.4, 3))},
 			{"rf5-from-initial", ini(5, 5), pick(6, 7), minutes(pickf(0.4, 3))},
+			// a volume revert that fails on a subset of the replicas, then writes and flushes before the monitor wake-ups
+			// have removed the failed replicas: the status must have been re-evaluated at the mode change itself
+			{"rf3-revert-failing-on-a-subset-then-io", func() eb.Cfg {
+				c := mk(3, 3, append(append([]string{}, rw3...), "W:0", "Snap:0"), 3)
+				c.Alphabet = []string{"Revert", "W", "Sy", "MonWake"}
+				c.Drain = false
+				c.MaxSnaps = 2
+				c.MaxFaults = 3
+				return c
+			}(), pick(3, 4), minutes(pickf(0.5, 4))},
 			// replicas fail while the volume is idle: only the monitor path (real monitorPing goroutine on the real rpc
 			// client, real Controller.monitoring) can notice - cut connections, refused pings - then writes and flushes
 			{"rf3-idle-failures-real-monitor-and-rpc", func() eb.Cfg {
